@@ -284,6 +284,14 @@ func runC18Case(tier string, seed uint64, idx int, keepDir string) *CaseResult {
 		res.Err = "no crop sown inside the period"
 		return res
 	}
+	// a permanent crop as first sown crop: in 40 % of these cases the crop standing before the start (the first rotation
+	// line, never sown in the run) is the same permanent crop - "continues a stand" and "first crop of the run" meet
+	permInit := false
+	if rpp := NewRng(mix(mix(seed, uint64(idx)), 1820)); c13Permanent[cf[0]] && target == 1 && rpp.Bool(0.4) {
+		sc.Rotation[0].Crop, sc.Rotation[0].Variety = cf[0], ""
+		permInit = true
+		res.Cov["pairs_permanent_crop_after_itself_as_initial_crop"]++
+	}
 	te := sc.Rotation[target]
 	fileName := cropParamFileName(te.Crop, te.Variety, true)
 	cp, err := hermes.ReadCropParamFromFile(filepath.Join(paramDir, fileName))
@@ -331,6 +339,9 @@ func runC18Case(tier string, seed uint64, idx int, keepDir string) *CaseResult {
 		kd := kinds[(idx/len(c13CropFiles)+idx+k*7)%len(kinds)]
 		if k > 0 {
 			kd = kinds[r.Intn(len(kinds))]
+		}
+		if permInit && k == 0 && r.Bool(0.7) {
+			kd = kinds[5+r.Intn(2)] // the initial N concentrations: only used when a crop does not continue a stand
 		}
 		if history && k == 0 && r.Bool(0.5) {
 			kd = kinds[len(c18BaseParams)] // TSUM: the parameter other quantities are derived from when the file is read
